@@ -50,7 +50,7 @@ def score_check(ctx):
         r = tlc40(ctx)
         if pid in ('C04', 'C11', 'C12'):
             run('sweep40', r['out'], 'v4 sweep of all 15,116,544 effective classes', n=stripe)
-        if pid in ('C04', 'C10'):
+        if pid in ('C04', 'C10', 'C11'):
             run('lift40', r['out'], 'v4 realisations (Modified / undefined / supplemental metrics)', n=K)
         if thorough and pid in ('C04', 'C12'):
             # the monolithic definition on all classes = the composed tables; monotone along every severity step
@@ -59,7 +59,7 @@ def score_check(ctx):
         r = tlc3x(ctx)
         if pid in ('C03', 'C11', 'C12'):
             run('sweep3x', r['out'], 'v3.0/v3.1 sweep of all base, temporal and environmental classes', n=stripe)
-        if pid in ('C03', 'C10'):
+        if pid in ('C03', 'C10', 'C11'):
             run('lift3x', r['out'], 'v3 realisations (Modified metrics, undefined metrics)', n=K)
     if pid in ('C05', 'C11', 'C12'):
         r = tlc20(ctx)
